@@ -143,16 +143,18 @@ def content(env, topo, t, method, limit=None):
         with warnings.catch_warnings():
             warnings.simplefilter("ignore")
             F.solve_stress(when=t, **kw)
+        # what the tension back-end returned, recorded before the pressure solve adds its own captures
+        snap = {k: list(v) for k, v in stubs.CAP.items()}
         F.build_pressure_matrix(when=t)
         F.solve_pressure(when=t, method="lagrange_pressure")
     finally:
         vs.restore()
     fr, b = F.frames[t], builts[t]
     other = F.frames[1 - t]
-    src = stubs.CAP.get("nnls") or stubs.CAP.get("inv") or stubs.CAP.get("lsq_linear") or stubs.CAP.get("lmfit")
-    x = list(src[-1]["x"]) if method != "lsq" or not stubs.CAP.get("lmfit") else list(stubs.CAP["lmfit"][-1]["x"])
+    src = snap.get("nnls") or snap.get("inv") or snap.get("lsq_linear") or snap.get("lmfit")
+    x = list(src[-1]["x"]) if method != "lsq" or not snap.get("lmfit") else list(snap["lmfit"][-1]["x"])
     if method == "lsq_linear":
-        x = list(stubs.CAP["lsq_linear"][-1]["x"])
+        x = list(snap["lsq_linear"][-1]["x"])
     internal = fr.internal_big_edges
     n = len(internal)
     obs = []
